@@ -117,6 +117,44 @@ class Facts:
                     if ok:
                         dict.__setitem__(self.tables, k['path'], vals)
         self._cfg = {}
+        self.field_aliases = {}
+        self._canonicalise_fields()
+
+    def _canonicalise_fields(self):
+        """The rules address private state by the field names of the pinned tree (sa/canon_fields.json).  A field that was
+        merely RENAMED (same type, old name gone, new name unknown) is located by type, then by name similarity / declaration
+        order, and presented to the rules under its canonical name; the mapping is recorded in evidence.  This only locates
+        state: every obligation is still decided on the behaviour of the located field, so a wrong guess can only make a
+        rule fail (as failing closed on the missing name would), never pass."""
+        import difflib
+        p = os.path.join(os.path.dirname(os.path.abspath(__file__)), 'canon_fields.json')
+        if not os.path.exists(p):
+            return
+        canon = json.load(open(p))
+        for path, fl in canon.items():
+            a = self.adts.get(path)
+            if a is None or a.get('kind') != 'struct':
+                continue
+            fields = a['variants'][0]['fields']
+            have = {f['name'] for f in fields}
+            cnames = {n for n, _ in fl}
+            missing = [(n, t) for n, t in fl if n not in have]
+            extra = [f for f in fields if f['name'] not in cnames]
+            if not missing or not extra:
+                continue
+            used = set()
+            for n, t in missing:
+                cands = [f for f in extra if f['ty'].get('s') == t and id(f) not in used]
+                if not cands:
+                    continue
+                # a rename keeps the declaration position far more often than the spelling: same index first, then the
+                # earliest unmatched field of the type, name similarity only as the last tie-break
+                ci = [x for x, _ in fl].index(n)
+                best = min(cands, key=lambda f: (0 if fields.index(f) == ci else 1, fields.index(f), -difflib.SequenceMatcher(None, n, f['name']).ratio()))
+                used.add(id(best))
+                self.field_aliases.setdefault(path, {})[n] = best['name']
+                best['actual_name'] = best['name']
+                best['name'] = n
 
     def real(self, kind, path):
         """definition path under which an item is actually found (items may have moved between private modules)"""
